@@ -153,6 +153,16 @@ def generate(cfgs=("rwdi",)):
     try:
         nsj = os.path.join(li["inc"], "container_node_sizes_impl.hpp.json")
         tbl = json.load(open(nsj))
+        formulas = tbl.pop("__formula__", None)
+        if formulas is not None:
+            # the hand-written model `nodeSizeConst c s a = round_up(base c a + s, 8)` (Model/Container.lean) is tied to the
+            # formula text the repository's generator emits: any other text is a broken tie
+            for c, ftxt in formulas.items():
+                want = "detail::round_up_to_multiple_of_alignment(detail::%s_node_size<alignof(T)>::value + sizeof(T), alignof(void*))" % c
+                if ftxt != want:
+                    res["errors"].append("node size formula of %s is `%s`, the model (Model/Container.lean nodeSizeConst) assumes `%s`" % (c, ftxt, want))
+            if set(formulas) != set(tbl):
+                res["errors"].append("node size formulas %s / tables %s" % (sorted(formulas), sorted(tbl)))
         rows = []
         for c in tbl:
             for a in sorted(tbl[c], key=int):
